@@ -5,11 +5,12 @@ set -u
 M=$1
 export GOFLAGS=-mod=mod GOPROXY=off GOSUMDB=off GOTOOLCHAIN=local
 WT=$(mktemp -d /tmp/confirm-XXXX)
+DD=$(python3 -c "import json;print(json.load(open('$M/meta.json')).get('demo_dir','.'))" 2>/dev/null || echo .)
 git -C /repo worktree add -q --detach $WT HEAD || exit 2
 res="ok"
 cd $WT
-cp $M/demo_test.go $WT/mut_demo_test.go
-if ! go test -mod=mod -vet=off -count=1 -run TestMutDemo . >/tmp/confirm-clean.log 2>&1; then res="demo-fails-on-clean"; fi
+cp $M/demo_test.go $WT/$DD/mut_demo_test.go
+if ! go test -mod=mod -vet=off -count=1 -run TestMutDemo ./$DD/ >/tmp/confirm-clean.log 2>&1; then res="demo-fails-on-clean"; fi
 if [ "$res" = ok ]; then
   if ! git apply $M/patch.diff 2>/tmp/confirm-apply.log; then res="patch-does-not-apply"; fi
 fi
@@ -17,12 +18,12 @@ if [ "$res" = ok ]; then
   if ! go build ./... >/tmp/confirm-build.log 2>&1; then res="does-not-build"; fi
 fi
 if [ "$res" = ok ]; then
-  rm -f $WT/mut_demo_test.go
+  rm -f $WT/$DD/mut_demo_test.go
   if ! go test -mod=mod -vet=off -count=1 ./... >/tmp/confirm-suite.log 2>&1; then res="suite-fails"; fi
-  cp $M/demo_test.go $WT/mut_demo_test.go
+  cp $M/demo_test.go $WT/$DD/mut_demo_test.go
 fi
 if [ "$res" = ok ]; then
-  if go test -mod=mod -vet=off -count=1 -run TestMutDemo . >/tmp/confirm-mut.log 2>&1; then res="demo-passes-with-mutant"; fi
+  if go test -mod=mod -vet=off -count=1 -run TestMutDemo ./$DD/ >/tmp/confirm-mut.log 2>&1; then res="demo-passes-with-mutant"; fi
 fi
 cd /
 git -C /repo worktree remove --force $WT
